@@ -32,4 +32,5 @@ run_demo without; D_WITHOUT=$?
 git checkout -q -- .; git clean -fdq src
 VERDICT=REJECT
 if [ "$FAILED" = "0" ] && [ "$PASSED" -ge 42 ] && [ "$D_WITH" != "0" ] && [ "$D_WITH" -lt 98 ] && [ "$D_WITHOUT" = "0" ]; then VERDICT=CONFIRMED; fi
+echo "$V: $VERDICT tests_passed=$PASSED other_failures=$FAILED demo_with=$D_WITH demo_without=$D_WITHOUT" > $V/confirm.summary
 echo "$V: $VERDICT tests_passed=$PASSED other_failures=$FAILED demo_with=$D_WITH demo_without=$D_WITHOUT"
